@@ -22,6 +22,8 @@ class DefFun:
         self.cheap = cheap
         self.uf = z3.Function(name, *arg_sorts, ret_sort)
         self._rec = None
+        self.ready = True
+        self._templates = {}
         _REGISTRY[name] = self
 
     def __call__(self, *args):
@@ -30,7 +32,29 @@ class DefFun:
         return self.uf(*args)
 
     def instance(self, *args):
+        p = args[self.principal]
+        if z3.is_app(p) and p.decl().kind() == z3.Z3_OP_DT_CONSTRUCTOR and p.sort().kind() == z3.Z3_DATATYPE_SORT:
+            dt = p.sort()
+            for ci in range(dt.num_constructors()):
+                if dt.constructor(ci).eq(p.decl()):
+                    return self.uf(*args) == self.branch(args, ci, [p.arg(j) for j in range(p.num_args())])
         return self.uf(*args) == z3.simplify(self.body_fn(*args))
+
+    def branch(self, args, ci, field_terms):
+        """Body specialised to constructor `ci` of the principal argument (cached template)."""
+        key = ci
+        dt = self.arg_sorts[self.principal]
+        if key not in self._templates:
+            params = [z3.Const(f"tp{i}!{self.name}", s_) for i, s_ in enumerate(self.arg_sorts)]
+            ctor = dt.constructor(ci)
+            fcs = [z3.Const(f"tf{j}!{self.name}!{ci}", ctor.domain(j)) for j in range(ctor.arity())]
+            a2 = list(params)
+            a2[self.principal] = ctor(*fcs) if fcs else ctor()
+            self._templates[key] = (params, fcs, z3.simplify(self.body_fn(*a2)))
+        params, fcs, tmpl = self._templates[key]
+        subs = [(params[i], args[i]) for i in range(len(params)) if i != self.principal]
+        subs += list(zip(fcs, field_terms))
+        return z3.substitute(tmpl, *subs) if subs else tmpl
 
     def rec(self):
         if self._rec is None:
@@ -73,7 +97,7 @@ def _apps(t, acc, seen):
         d = t.decl()
         if d.kind() == z3.Z3_OP_UNINTERPRETED and t.num_args() > 0:
             df = _REGISTRY.get(d.name())
-            if df is not None and df.uf.eq(d):
+            if df is not None and df.ready and df.uf.eq(d):
                 acc.append((df, t))
         for i in range(t.num_args()):
             _apps(t.arg(i), acc, seen)
@@ -95,7 +119,17 @@ def _asserted_testers(formulas, acc):
     return acc
 
 
+_CTOR_CACHE = {}
+
+
 def _ctor_of_tester(dt_sort, tester_decl):
+    k = tester_decl.get_id()
+    if k not in _CTOR_CACHE:
+        _CTOR_CACHE[k] = _ctor_of_tester0(dt_sort, tester_decl)
+    return _CTOR_CACHE[k]
+
+
+def _ctor_of_tester0(dt_sort, tester_decl):
     for i in range(dt_sort.num_constructors()):
         if dt_sort.recognizer(i).eq(tester_decl):
             return i
@@ -110,61 +144,87 @@ def _ctor_of_tester(dt_sort, tester_decl):
     return None
 
 
-def unfold_closure(formulas, rounds=3, done=None, limit=400):
-    """Defining-equation instances for the DefFun applications in `formulas` (bounded).
+class Unfolder:
+    """Incremental controlled unfolding over a growing set of formulas (a path condition, or the
+    hypotheses + goal of one obligation).
     * principal argument constructor-headed: the full equation (simplifies to one branch);
-    * cheap (sequence) recursions: always one step;
-    * principal argument `t` with an asserted tester is_K(t): the guarded K-branch
-      is_K(t) => f(.., t) == body(.., K(accessors of t))   (t = K(acc(t)) under the guard)."""
-    done = set() if done is None else done
-    out = []
-    frontier = list(formulas)
-    walked = set()
-    testers = _asserted_testers(formulas, {})
-    for r in range(rounds):
-        apps = []
-        for f in frontier:
-            _apps(f, apps, walked)
-        frontier = []
-        for df, app in apps:
-            if app.get_id() in done:
-                continue
-            args = [app.arg(i) for i in range(app.num_args())]
-            p = z3.simplify(args[df.principal])
-            if df.cheap or _headed(p):
-                done.add(app.get_id())
-                inst = df.instance(*args)
-                out.append(inst)
-                frontier.append(inst)
-            elif p.get_id() in testers or args[df.principal].get_id() in testers:
-                t, decls = testers.get(p.get_id()) or testers[args[df.principal].get_id()]
-                done.add(app.get_id())
-                dt = t.sort()
-                for d in decls:
-                    ci = _ctor_of_tester(dt, d)
-                    if ci is None:
-                        continue
-                    ctor = dt.constructor(ci)
-                    rebuilt = ctor(*[dt.accessor(ci, j)(t) for j in range(ctor.arity())]) if ctor.arity() else ctor()
-                    a2 = list(args)
-                    a2[df.principal] = rebuilt
-                    inst = z3.Implies(d(t), df.uf(*args) == z3.simplify(df.body_fn(*a2)))
+    * cheap (small-bodied / sequence) recursions: always one step;
+    * principal argument `t` with an asserted tester is_K(t) (top-level literal, possibly asserted
+      later than the application appeared): the guarded K-branch
+      is_K(t) => f(.., t) == body(.., K(accessors of t))      (t = K(acc(t)) under the guard)."""
+
+    def __init__(self, rounds=3, limit=600):
+        self.rounds = rounds
+        self.limit = limit
+        self.done = set()
+        self.walked = set()
+        self.apps = []              # DefFun applications seen and not yet fully unfolded
+        self.testers = {}
+        self.count = 0
+        self._pinfo = {}
+
+    def add(self, formulas):
+        out = []
+        _asserted_testers(formulas, self.testers)
+        frontier = list(formulas)
+        for r in range(self.rounds):
+            for f in frontier:
+                _apps(f, self.apps, self.walked)
+            frontier = []
+            keep = []
+            for df, app in self.apps:
+                aid = app.get_id()
+                if aid in self.done:
+                    continue
+                keep.append((df, app))
+                info = self._pinfo.get(aid)
+                if info is None:
+                    args = [app.arg(i) for i in range(app.num_args())]
+                    p0 = args[df.principal]
+                    p = z3.simplify(p0)
+                    info = self._pinfo[aid] = (args, p0, p, df.cheap or _headed(p))
+                args, p0, p, direct = info
+                if direct:
+                    self.done.add(aid)
+                    inst = df.instance(*args)
                     out.append(inst)
                     frontier.append(inst)
-            if len(out) > limit:
-                return out
-        if not frontier:
-            break
-    return out
+                else:
+                    ent = self.testers.get(p.get_id()) or self.testers.get(p0.get_id())
+                    if ent is None:
+                        continue
+                    t, decls = ent
+                    dt = t.sort()
+                    for d in decls:
+                        ci = _ctor_of_tester(dt, d)
+                        if ci is None or (aid, ci) in self.done:
+                            continue
+                        self.done.add((aid, ci))
+                        inst = guarded_instance(df, args, t, ci)
+                        out.append(inst)
+                        frontier.append(inst)
+                self.count += 1
+                if len(out) > self.limit:
+                    return out
+            self.apps = [x for x in keep if x[1].get_id() not in self.done]
+            if not frontier:
+                break
+            _asserted_testers(frontier, self.testers)
+        return out
+
+
+def unfold_closure(formulas, rounds=3, done=None, limit=400):
+    u = Unfolder(rounds=rounds, limit=limit)
+    if done is not None:
+        u.done = done
+    return u.add(list(formulas))
 
 
 def guarded_instance(df, args, t, ci):
     dt = t.sort()
     ctor = dt.constructor(ci)
-    rebuilt = ctor(*[dt.accessor(ci, j)(t) for j in range(ctor.arity())]) if ctor.arity() else ctor()
-    a2 = list(args)
-    a2[df.principal] = rebuilt
-    return z3.Implies(dt.recognizer(ci)(t), df.uf(*args) == z3.simplify(df.body_fn(*a2)))
+    fields = [dt.accessor(ci, j)(t) for j in range(ctor.arity())]
+    return z3.Implies(dt.recognizer(ci)(t), df.uf(*args) == df.branch(args, ci, fields))
 
 
 def _acc_depth(t):
